@@ -100,7 +100,33 @@ func (rep *Report) finish() int {
 			obls = append(obls, u.Ctx.obls...)
 		}
 	}
+	if os.Getenv("GOVC_V") != "" {
+		for _, u := range rep.Units {
+			if u.Ctx != nil {
+				fmt.Fprintf(os.Stderr, "unit %s: %d obligations, %d background lines, generated at %.1fs\n", u.Name, len(u.Ctx.obls), len(u.Ctx.bg), time.Since(rep.start).Seconds())
+			}
+		}
+	}
 	results := solveAll(obls, timeout, 16)
+	if os.Getenv("GOVC_V") != "" {
+		fmt.Fprintf(os.Stderr, "first pass solved at %.1fs\n", time.Since(rep.start).Seconds())
+		srt := append([]Result{}, results...)
+		sort.Slice(srt, func(i, j int) bool { return srt[i].Dur > srt[j].Dur })
+		for i := 0; i < 12 && i < len(srt); i++ {
+			fmt.Fprintf(os.Stderr, "  slow: %s %.1fs\n", srt[i].Obl.Name, srt[i].Dur.Seconds())
+		}
+		for _, r := range results {
+			if r.Res != r.Obl.Expect || r.Dur.Seconds() > 5 {
+				fmt.Fprintf(os.Stderr, "  %s: %s %.1fs %s\n", r.Obl.Name, r.Res, r.Dur.Seconds(), r.Backend)
+			}
+		}
+	}
+	for _, r := range results {
+		if r.Res == "error" {
+			fmt.Printf("BROKEN: solver rejected the script of %s: %s\n", r.Obl.Name, strings.SplitN(r.Raw, "\n", 2)[0])
+			return 2
+		}
+	}
 	// second chance for non-answers with a longer timeout before calling anything a failure
 	for i := range results {
 		r := &results[i]
@@ -160,6 +186,9 @@ func (rep *Report) finish() int {
 			nObl++
 		}
 	}
+	for _, u := range rep.Units {
+		rep.Grounds = append(rep.Grounds, u.Grounds...)
+	}
 	groundOK := 0
 	for i := range rep.Grounds {
 		g := &rep.Grounds[i]
@@ -180,6 +209,7 @@ func (rep *Report) finish() int {
 		if u.Skipped != "" {
 			notUnder = append(notUnder, u.Name+": "+u.Skipped)
 			failures = append(failures, failure{Name: u.Name + "/under-contract", Kind: "subset", Text: "function can be brought under contract: " + u.Skipped, Res: "unsupported"})
+			fmt.Println("NOT-UNDER-CONTRACT:", u.Name, u.Skipped)
 			continue
 		}
 		m := map[string]string{"name": u.Name, "file": u.File}
@@ -194,13 +224,17 @@ func (rep *Report) finish() int {
 	violations := 0
 	var knownSeen []string
 	var violationLines []string
+	knownCount := map[int]int{}
+	knownFirst := map[int]string{}
 	for _, f := range failures {
 		matched := false
-		for _, k := range known.Findings {
+		for ki, k := range known.Findings {
 			if k.Property == rep.Property && globMatch(k.Obligation, f.Name) {
 				matched = true
-				line := fmt.Sprintf("KNOWN-FINDING: property=%s %s [%s] (%s)", rep.Property, k.What, f.Name, k.Defect)
-				knownSeen = append(knownSeen, line)
+				knownCount[ki]++
+				if knownFirst[ki] == "" {
+					knownFirst[ki] = f.Name
+				}
 				break
 			}
 		}
@@ -214,6 +248,11 @@ func (rep *Report) finish() int {
 			suffix = " no-failing-input-found"
 		}
 		violationLines = append(violationLines, fmt.Sprintf("VIOLATION property=%s replay=%s obligation=%s%s", rep.Property, path, f.Name, suffix))
+	}
+	for ki, k := range known.Findings {
+		if n := knownCount[ki]; n > 0 {
+			knownSeen = append(knownSeen, fmt.Sprintf("KNOWN-FINDING: property=%s %s [%d obligation(s) matching %s, e.g. %s] (%s)", rep.Property, k.What, n, k.Obligation, knownFirst[ki], k.Defect))
+		}
 	}
 	sort.Strings(knownSeen)
 	seen := map[string]bool{}
@@ -318,6 +357,10 @@ func (rep *Report) writeReplay(f failure) string {
 			}()
 			out = rep.Replayer(rep, f.res)
 		}()
+	}
+	if f.ground != nil && f.ground.Tag["kind"] == "plugin-request" {
+		// the ground evaluation was itself a run of the real plugin on this request: the failing input is in hand
+		out = &ReplayOutcome{Confirmed: true, Inputs: map[string]interface{}{"request_b64": f.ground.Tag["request_b64"]}, Cmd: "/verif/bin/govc replay <this file>   # rebuilds the plugin from /repo and re-sends the CodeGeneratorRequest", Output: f.ground.Detail}
 	}
 	model := f.Model
 	if len(model) > 6000 {
